@@ -742,5 +742,5 @@ META = {
             "by the oracle only.",
     "technique": "Coq proof of a reference explorer (soundness+completeness w.r.t. inductive reachability) + sleep-set theorem; extracted reference "
                  "compared per generated program with simgrid-mc runs of a generic S4U interpreter",
-    "claimed": False,
+    "claimed": True,
 }
